@@ -7,7 +7,7 @@
 //   alg   copy | fill | equal | foreach | foreachpos | generate | tr1 | tr2 | trpos | cconv | imgeq | fillx | genx | tr1x
 //         fillx / genx / tr1x (rgb8, rgb8p): like fill / generate / tr1 but the value / the functor's result is a bgr8_pixel_t, a compatible
 //                pixel type with another channel order: channels must be paired by colour, not by storage position
-//         imgeq: two gil::image objects (kinds ignored): image 1 is w x h with alignment <so>, image 2 is (w + arg) x h with alignment <do>
+//         imgeq: two gil::image objects (kinds ignored): image 1 is w x h with alignment <so>, image 2 is (w + arg) x h (arg = 2: h x w, same pixel count) with alignment <do>
 //                (arg = 1: different dimensions); observation eq=<img1 == img2> ne=<img1 != img2>, values of image 2
 //   org   rgb8 | rgb8p | rgb565 | gray1 | gray4 | rgb222 | rgb32f            (cconv: org = source organisation gray8|rgb8, dst = rgb8 / bgr8)
 //   sk,dk view kind of source / destination:  full | sub | xstep | trans
@@ -20,6 +20,7 @@
 //         underlying image starts at bit (o / 9) % 8 of the buffer
 //   spad,dpad row padding of the underlying image in memory units (bytes; bits for bit-aligned)
 //   arg   fill value / generator start / transform constant
+//   tr2: the second source is a view of kind s2kind(sk) (same C++ type, other traversability), see s2kind / s2o below
 //   values: one integer per pixel (mixed radix over the semantic channels; rgb32f: 3 bits per channel indexing a table of floats)
 // observation:   frame=ok|bad@<byte>  [eq=0|1] [log=<values seen by the functor, in call order>] ; <destination view values, row major>
 //   frame: every bit of the destination buffer (canary margins, row padding, pixels outside the view, neighbouring bits)
@@ -116,6 +117,12 @@ static Geo geo(std::string const& kind, long w, long h, long o, long pad, bool b
     return g;
 }
 
+// second source of tr2: a view of the SAME C++ type as the first source but of the other traversability class
+// (full <-> sub, flipy -> full, xstep <-> flipx), so that a fast path that tests only src1 and dst is exposed
+static std::string s2kind(std::string const& k) {
+    if (k == "full") return "sub"; if (k == "sub" || k == "flipy") return "full"; if (k == "xstep") return "flipx"; if (k == "flipx") return "xstep"; return k; }
+static long s2o(std::string const& k, long o) { long bit = 9 * ((o / 9) % 8); if (k == "full") return 4 + bit; if (k == "flipx") return 1 + bit; return bit; }
+
 template <typename O> struct Side {
     Geo g; Buf buf; std::vector<unsigned char> before, mask;
     Side(Geo const& g_) : g(g_), buf(O::bytes(g_.W0, g_.H0, g_.pad)) {}
@@ -154,17 +161,18 @@ template <typename OS, typename OD> static std::string run_op(std::vector<std::s
     if (alg == "imgeq") {
         if constexpr (!gil::pixels_are_compatible<typename OS::pixel_t, typename OD::pixel_t>::value) return "bad-op:alg";
         else {
-        typename OS::image_t a(w, h, (std::size_t)so); typename OD::image_t b(w + arg, h, (std::size_t)dof);
+        long w2 = arg == 2 ? h : w + arg, h2 = arg == 2 ? w : h;
+        typename OS::image_t a(w, h, (std::size_t)so); typename OD::image_t b(w2, h2, (std::size_t)dof);
         { auto v = gil::view(a); long i = 0; for (long y = 0; y < h; ++y) for (long x = 0; x < w; ++x, ++i) v(x, y) = OS::enc(sv.at(i)); }
-        { auto v = gil::view(b); long i = 0; for (long y = 0; y < h; ++y) for (long x = 0; x < w + arg; ++x, ++i) v(x, y) = OD::enc(dv.at(i)); }
+        { auto v = gil::view(b); long i = 0; for (long y = 0; y < h2; ++y) for (long x = 0; x < w2; ++x, ++i) v(x, y) = OD::enc(dv.at(i)); }
         bool eq = (a == b), ne = (a != b), self = (a == a) && !(a != a);
         std::string r = std::string("frame=ok eq=") + (eq ? "1" : "0") + " ne=" + (ne ? "1" : "0") + (self ? "" : " self=0") + " ;";
-        auto v = gil::const_view(b); for (long y = 0; y < h; ++y) for (long x = 0; x < w + arg; ++x) r += " " + std::to_string(OD::dec(v(x, y)));
+        auto v = gil::const_view(b); for (long y = 0; y < h2; ++y) for (long x = 0; x < w2; ++x) r += " " + std::to_string(OD::dec(v(x, y)));
         return r;
         }
     }
     std::vector<long> s2v = parts.size() > 3 ? parse_vals(parts[3]) : std::vector<long>();
-    Side<OS> S(geo(hd[2], w, h, so, spad, OS::bits)); Side<OS> S2(geo(hd[2], w, h, so, spad, OS::bits)); Side<OD> D(geo(hd[3], w, h, dof, dpad, OD::bits));
+    Side<OS> S(geo(hd[2], w, h, so, spad, OS::bits)); Side<OS> S2(geo(s2kind(hd[2]), w, h, s2o(hd[2], so), spad, OS::bits)); Side<OD> D(geo(hd[3], w, h, dof, dpad, OD::bits));
     std::string out;
     with_view<OS>(S, [&](auto const& src) {
       S.init(src, sv);
